@@ -16,7 +16,10 @@ import (
 // quiescence) under a chosen configuration (proxy/direct, sync/async WARC writing, rate limiter,
 // workers, WARC pool, on-disk, seencheck on/off).  Observed: did Stop() return (watchdog), did the
 // process crash, live workers afterwards, *.open files left, every WARC file made of complete
-// records only (independent reader).
+// records only (independent reader).  For the WARC side of the stop sequence (Pipe/WarcStopLts.v): the fetches
+// in progress when Stop() was called and those started afterwards (arch.fetch events), the exchanges the
+// archiver saw completed (arch.written: after the writer's feedback in synchronous mode), and from the final
+// files: their number, request vs response records, and every acknowledged exchange's response record.
 //
 // Input: as driver "pipe" plus stop=<point>:<k> | stop=paused:<delay ms> with pause=<point>:<k> | (none = quiescence)
 
@@ -48,10 +51,69 @@ func abstractStopState(evs []pevent) (busy [4]int, stopSeen bool) {
 	return
 }
 
+// warcSideOfStop abstracts the archiver/WARC state at the stop moment and what happened to the exchanges:
+// inflight = fetches (arch.fetch) in progress when Stop() was called (not yet followed by arch.written of the same
+// item, a retry of it, or arch.done of its seed), after = fetches started afterwards, acked/ackAfter = exchanges the
+// archiver saw completed (arch.written) in the whole run / after Stop() was called, lost = acknowledged exchanges
+// without a response (or revisit) record of their own in the final files (multiset match on WARC-Target-URI)
+func warcSideOfStop(evs []pevent, sc warcScan) (inflight, after, acked, ackAfter, lost, req, resp int) {
+	open := map[string]string{} // item id -> seed id of its fetch in progress
+	stopped := false
+	want := map[string]int{}
+	for _, e := range evs {
+		switch e.kind {
+		case "stop.call":
+			stopped = true
+			inflight = len(open)
+		case "arch.fetch":
+			if len(e.fields) >= 3 {
+				if stopped {
+					after++
+				} else {
+					open[e.fields[0]] = e.fields[2]
+				}
+			}
+		case "arch.written":
+			if len(e.fields) >= 3 {
+				acked++
+				if stopped {
+					ackAfter++
+				}
+				delete(open, e.fields[0])
+				want[e.fields[1]]++
+			}
+		case "arch.done":
+			if len(e.fields) >= 1 {
+				for it, seed := range open {
+					if seed == e.fields[0] {
+						delete(open, it)
+					}
+				}
+			}
+		}
+	}
+	have := map[string]int{}
+	for _, r := range sc.Recs {
+		switch r.Type {
+		case "request":
+			req++
+		case "response", "revisit":
+			resp++
+			have[r.TargetURI]++
+		}
+	}
+	for u, n := range want {
+		if have[u] < n {
+			lost += n - have[u]
+		}
+	}
+	return
+}
+
 func execStop(input string) Result {
 	dir, err := os.MkdirTemp("", "zv-stop-")
 	if err != nil {
-		return Result{Term: "SC 1 [] false 1 true false 0 0 0", Tags: []string{"mktemp-failed"}}
+		return Result{Term: "SC 1 [] false 1 true false 0 0 0 false 0 0 0 0 0 0 0 0", Tags: []string{"mktemp-failed"}}
 	}
 	if os.Getenv("ZV_KEEP") == "" {
 		defer os.RemoveAll(dir)
@@ -83,15 +145,19 @@ func execStop(input string) Result {
 	for _, x := range busy {
 		b = append(b, strconv.Itoa(x))
 	}
-	term := fmt.Sprintf("SC %d %s %s %d %s %s %d %d %d", sp.Workers, coqList(b), coqBool(paused), sp.Pool,
-		coqBool(crashed), coqBool(returned), workersAfter, sc.OpenFiles, sc.BadFiles)
+	inflight, after, acked, ackAfter, lost, req, resp := warcSideOfStop(evs, sc)
+	term := fmt.Sprintf("SC %d %s %s %d %s %s %d %d %d %s %d %d %d %d %d %d %d %d", sp.Workers, coqList(b), coqBool(paused), sp.Pool,
+		coqBool(crashed), coqBool(returned), workersAfter, sc.OpenFiles, sc.BadFiles,
+		coqBool(sp.Async), inflight, after, ackAfter, sc.Files, req, resp, acked, lost)
 	moment := "quiescence"
 	if sp.StopAt != nil {
 		moment = sp.StopAt.Point
 	}
 	tags := []string{"moment:" + moment, fmt.Sprintf("proxy:%v", sp.Proxy), fmt.Sprintf("async:%v", sp.Async), fmt.Sprintf("rl:%v", sp.RateLimit),
 		fmt.Sprintf("seencheck:%v", sp.Seencheck), fmt.Sprintf("w:%d", sp.Workers), fmt.Sprintf("pool:%d", sp.Pool), fmt.Sprintf("ondisk:%v", sp.OnDisk),
-		fmt.Sprintf("paused:%v", paused), fmt.Sprintf("busy:%d", busy[0]+busy[1]+busy[2]+busy[3]), fmt.Sprintf("records:%d", bucket(sc.Records))}
+		fmt.Sprintf("paused:%v", paused), fmt.Sprintf("busy:%d", busy[0]+busy[1]+busy[2]+busy[3]), fmt.Sprintf("records:%d", bucket(sc.Records)),
+		fmt.Sprintf("inflight:%d", bucket(inflight)), fmt.Sprintf("fetch-after-stop:%d", bucket(after)), fmt.Sprintf("acked:%d", bucket(acked)),
+		fmt.Sprintf("acked-after-stop:%d", bucket(ackAfter))}
 	if status != "" {
 		note("stop case [" + input + "]: " + status)
 	}
